@@ -28,7 +28,7 @@ def make_flow_scenarios(ctx, count):
         s = H.Scenario("f%d" % i)
         s.iface(0, **H.iface_kw(cfg)).glob(**G.global_kw(G.rand_global(rng, icon_size=0)))
         s.add("OPT sleep=0 txhex=0")
-        s.add("NOW %d" % rng.choice([1, 500, 999, 1000, 77777]))
+        s.add("NOW %d" % rng.choice([0, 1, 500, 999, 1000, 77777, (1 << 32) - 40000, (1 << 32) - 5000, (1 << 32) + 1, 1 << 40]))
         ops = []
         m = 0
         # half of the histories run beside a second interface of the same process with its own engine and traffic,
@@ -87,7 +87,7 @@ def make_api_scenarios(ctx, count):
         s = H.Scenario("a%d" % i)
         s.iface(0, mtu=1500, mac=G.rand_mac(rng))
         s.add("OPT sleep=0")
-        s.add("NOW %d" % rng.choice([1, 999, 1000, 50000]))
+        s.add("NOW %d" % rng.choice([0, 1, 999, 1000, 50000, (1 << 32) - 40000, (1 << 32) - 5000, 1 << 40]))
         s.add("AI 0")
         ops = [("AI",)]
         for _ in range(rng.randint(60, 200)):
